@@ -1445,6 +1445,6 @@ func TestVerif_C16_parallel(t *testing.T) {
 
 func TestVerif_C16_sequence(t *testing.T) {
 	defer runtime.GOMAXPROCS(runtime.GOMAXPROCS(1))
-	kit.Run(t, "C16", "exec-sequence", kit.Opts{Quick: 1500, Thorough: 64000}, c16GenSeq,
+	kit.Run(t, "C16", "exec-sequence", kit.Opts{Quick: 1500, Thorough: 48000}, c16GenSeq,
 		func(sc c16SeqCase) kit.Verdict { return c16InterpSeq(t, sc) })
 }
